@@ -15,8 +15,8 @@ EXTENDS GraphClasses, SequencesExt, Json
 
 CONSTANTS PreSet,     \* subset of {"none", "all", "some"}: labels before the first exploration
           Depth, Emit
-VARIABLES g, pre, lab, h
-vars == <<g, pre, lab, h>>
+VARIABLES g, pre, lab, h, touched
+vars == <<g, pre, lab, h, touched>>
 
 V == g.v
 E == g.e
@@ -25,15 +25,24 @@ PreLabel(kind, v) == IF kind = "all" \/ (kind = "some" /\ ((v * 37 + 11) % 211) 
 
 Init == /\ g \in Domain /\ pre \in PreSet
         /\ lab = [v \in g.v |-> PreLabel(pre, v)]
-        /\ h = <<>>
+        /\ h = <<>> /\ touched = {}
+\* From the second sweep on, the Graph object may first be COPIED (cp: 0 copy-constructed, 1 assigned
+\* to a fresh graph, 2 assigned over a used graph; -1 no copy; chosen from the two start vertices so the
+\* number of histories does not grow) and the sweep then runs on the copy: the copy answers like the
+\* original would, and the abandoned original keeps the labels the earlier sweeps gave it (`old`).
+CopyMode(s) == IF h = <<>> THEN -1 ELSE ((s + h[Len(h)].s) % 4) - 1
 Explore(s) ==
   LET d == SpecDist(V, E, s)
       new == [v \in V |-> IF d[v] # None THEN d[v] ELSE lab[v]]
       vo == SetToSeq(V)
+      cp == CopyMode(s)
   IN /\ lab' = new
-     /\ h' = Append(h, [s |-> s,
+     /\ touched' = touched \cup {v \in V : d[v] # None}
+     /\ h' = Append(h, [s |-> s, cp |-> cp,
                         d |-> SelectSeq([i \in 1..Len(vo) |-> <<vo[i], d[vo[i]]>>], LAMBDA p : p[2] # None),
-                        keep |-> SelectSeq([i \in 1..Len(vo) |-> <<vo[i], lab[vo[i]]>>], LAMBDA p : d[p[1]] = None)])
+                        keep |-> SelectSeq([i \in 1..Len(vo) |-> <<vo[i], lab[vo[i]]>>], LAMBDA p : d[p[1]] = None),
+                        old |-> IF cp < 0 THEN <<>> ELSE
+                                SelectSeq([i \in 1..Len(vo) |-> <<vo[i], lab[vo[i]]>>], LAMBDA p : p[1] \in touched)])
      /\ UNCHANGED <<g, pre>>
 Next == Len(h) < Depth /\ \E s \in V : Explore(s)
 Spec == Init /\ [][Next]_vars
